@@ -3,8 +3,9 @@ import YaegiVerif.Proofs.C09Inv
 import YaegiVerif.Proofs.C09Stop
 /-
   Helper lemmas for C09: invariants that hold before the cancellation (every blocking operation of the
-  program is of a cancellable variant; a blocked goroutine is not armed), the step from a reachable state to
-  the dead state the cancellation produces, and the stability of the returned error.
+  program is of a cancellable variant and every frame races the current done channel; a blocked goroutine is not
+  armed), the step from a reachable state to the dead state the cancellation produces, and the stability of the
+  returned error.
 -/
 namespace YaegiVerif.Proofs.C09
 open YaegiVerif.RunId
@@ -13,26 +14,48 @@ structure PreG (F : RunIdFacts) (g : G) : Prop where
   canc : g.canc F = true
   wf : g.blocked.isSome = true → g.armed = false
 
-structure Pre (F : RunIdFacts) (σ : St) : Prop where
+/-- what holds as long as the `…WithContext` call watches its context -/
+structure PreS (F : RunIdFacts) (σ : St) : Prop where
   gs : ∀ g ∈ σ.gs, PreG F g
   list : ∀ e ∈ σ.runList, e.prog.canc F = true
+  fresh : σ.renewed = false
+  rootCur : σ.rootCur = true
 
-theorem stepG_pre (F : RunIdFacts) (σ : St) (g : G) (hl : ∀ e ∈ σ.runList, e.prog.canc F = true) (h : PreG F g) :
-    PreG F (stepG F σ g).1 ∧ (∀ s ∈ (stepG F σ g).2.1, PreG F s) ∧ (∀ e ∈ (stepG F σ g).2.2, e.prog.canc F = true) := by
+def Pre (F : RunIdFacts) (σ : St) : Prop := σ.watching = true → PreS F σ
+
+theorem gcanc_iff (F : RunIdFacts) (g : G) : g.canc F = true ↔
+    (g.stack.all (fun fr => fr.pc.canc F && fr.cur) = true ∧
+     (∀ k r, g.blocked = some (k, r) → r = true) ∧
+     (∀ pd, g.pending = some pd → pd.body.canc F = true ∧ childCur F pd.site pd.pcur true = true)) := by
+  obtain ⟨stack, armed, blocked, ops, ticks, main, pending⟩ := g
+  cases blocked with
+  | none => cases pending with
+    | none => simp [G.canc]
+    | some pd => simp [G.canc]
+  | some kr =>
+    obtain ⟨k, r⟩ := kr
+    cases pending with
+    | none => simp [G.canc]
+    | some pd => simp [G.canc, and_assoc]
+
+theorem stepG_pre (F : RunIdFacts) (σ : St) (g : G) (hl : ∀ e ∈ σ.runList, e.prog.canc F = true)
+    (hren : σ.renewed = false) (hrc : σ.rootCur = true) (h : PreG F g) :
+    PreG F (stepG F σ g).g ∧ (∀ s ∈ (stepG F σ g).spawned, PreG F s) ∧
+    (∀ e ∈ (stepG F σ g).list, e.prog.canc F = true) ∧ (stepG F σ g).rootCur = true := by
   obtain ⟨hca, hwf⟩ := h
-  obtain ⟨stack, armed, blocked, ops, ticks, main⟩ := g
+  obtain ⟨hall, hrel, hpend⟩ := (gcanc_iff F g).mp hca
+  obtain ⟨stack, armed, blocked, ops, ticks, main, pending⟩ := g
+  simp only at hall hrel hpend
+  have hcn : curNow σ = true := by simp [curNow, hren]
   cases blocked with
   | some kc =>
     obtain ⟨k, rel⟩ := kc
     have harm : armed = false := by simpa using hwf
     subst harm
-    have hall : stack.all (fun fr => fr.pc.canc F && fr.cur) = true := by
-      simp only [G.canc, Bool.and_eq_true] at hca; exact hca.1
     simp only [stepG, wake]
-    refine ⟨?_, by simp, hl⟩
+    refine ⟨?_, by simp, hl, hrc⟩
     split
-    · refine ⟨?_, by simp⟩
-      simp only [G.canc, Bool.and_true]
+    · refine ⟨(gcanc_iff F _).mpr ⟨?_, (fun _ _ h => nomatch h), hpend⟩, by simp⟩
       cases stack with
       | nil => rfl
       | cons a t => simp only [List.tail_cons]; simp only [List.all_cons, Bool.and_eq_true] at hall; exact hall.2
@@ -41,110 +64,159 @@ theorem stepG_pre (F : RunIdFacts) (σ : St) (g : G) (hl : ∀ e ∈ σ.runList,
     cases armed with
     | true =>
       cases stack with
-      | nil => simp only [stepG, execOp]; exact ⟨⟨by simp [G.canc], by simp⟩, by simp, hl⟩
+      | nil =>
+        simp only [stepG, execOp]
+        exact ⟨⟨(gcanc_iff F _).mpr ⟨rfl, (fun _ _ h => nomatch h), hpend⟩, by simp⟩, by simp, hl, hrc⟩
       | cons fr rest =>
         obtain ⟨fid, pc, fcur⟩ := fr
-        have hall : ((pc.canc F && fcur) && rest.all (fun fr => fr.pc.canc F && fr.cur)) = true := by simpa [G.canc] using hca
-        simp only [Bool.and_eq_true] at hall
-        obtain ⟨⟨hpc, hfc⟩, hrc⟩ := hall
+        simp only [List.all_cons, Bool.and_eq_true] at hall
+        obtain ⟨⟨hpc, hfc⟩, hrc'⟩ := hall
         subst hfc
+        have mk : ∀ (st : List Frame) (o t : Nat), st.all (fun fr => fr.pc.canc F && fr.cur) = true →
+            PreG F { stack := st, armed := false, blocked := none, ops := o, ticks := t, main := main, pending := pending } :=
+          fun st o t hs => ⟨(gcanc_iff F _).mpr ⟨hs, (fun _ _ h => nomatch h), hpend⟩, by simp⟩
         cases pc with
-        | done => simp only [stepG, execOp]; exact ⟨⟨by simpa [G.canc] using hca, by simp⟩, by simp, hl⟩
+        | done =>
+          simp only [stepG, execOp]
+          exact ⟨mk _ _ _ (by simp [hpc, hrc']), by simp, hl, hrc⟩
         | step p =>
           simp only [stepG, execOp]; simp only [Prog.canc] at hpc
-          exact ⟨⟨by simp [G.canc, hpc, hrc], by simp⟩, by simp, hl⟩
+          exact ⟨mk _ _ _ (by simp [hpc, hrc']), by simp, hl, hrc⟩
         | tick p =>
           simp only [stepG, execOp]; simp only [Prog.canc] at hpc
-          exact ⟨⟨by simp [G.canc, hpc, hrc], by simp⟩, by simp, hl⟩
+          exact ⟨mk _ _ _ (by simp [hpc, hrc']), by simp, hl, hrc⟩
         | mkclosure p =>
           simp only [stepG, execOp]; simp only [Prog.canc] at hpc
-          exact ⟨⟨by simp [G.canc, hpc, hrc], by simp⟩, by simp, hl⟩
+          exact ⟨mk _ _ _ (by simp [hpc, hrc']), by simp, hl, hrc⟩
         | call s body p =>
           simp only [stepG, execOp]; simp only [Prog.canc, Bool.and_eq_true] at hpc
-          exact ⟨⟨by simp [G.canc, hpc.1.1, hpc.1.2, hpc.2, hrc], by simp⟩, by simp, hl⟩
+          exact ⟨mk _ _ _ (by simp [hpc.1.1, hpc.1.2, hpc.2, hrc', hrc]), by simp, hl, hrc⟩
         | spawn ss body p =>
           simp only [stepG, execOp]; simp only [Prog.canc, Bool.and_eq_true] at hpc
-          refine ⟨⟨by simp [G.canc, hpc.2, hrc], by simp⟩, ?_, hl⟩
+          refine ⟨mk _ _ _ (by simp [hpc.2, hrc']), ?_, hl, hrc⟩
           intro s hs; simp at hs; subst hs
-          exact ⟨by simp [newG, G.canc, hpc.1.1, hpc.1.2], by simp [newG]⟩
+          refine ⟨(gcanc_iff F _).mpr ⟨rfl, (fun _ _ h => nomatch h), ?_⟩, by simp [newG]⟩
+          intro pd hpd
+          simp only [newG, Option.some.injEq] at hpd
+          subst hpd
+          exact ⟨hpc.1.2, hpc.1.1⟩
         | block k c p =>
           simp only [stepG, execOp]; simp only [Prog.canc, Bool.and_eq_true] at hpc
-          exact ⟨⟨by simp [G.canc, hpc.1, hpc.2, hrc], by simp⟩, by simp, hl⟩
+          refine ⟨⟨(gcanc_iff F _).mpr ⟨by simp [hpc.2, hrc'], ?_, hpend⟩, by simp⟩, by simp, hl, hrc⟩
+          intro k' r hkr
+          have h2 := congrArg Prod.snd (Option.some.inj hkr)
+          simp only [hpc.1, Bool.and_self] at h2
+          exact h2.symm
     | false =>
-      cases stack with
-      | nil =>
-        cases main with
-        | false => simp only [stepG, advance]; exact ⟨⟨by simp [G.canc], by simp⟩, by simp, hl⟩
-        | true =>
-          cases hrl : σ.runList with
-          | nil => simp only [stepG, advance, hrl]; exact ⟨⟨by simp [G.canc], by simp⟩, by simp, by simp⟩
-          | cons e es =>
-            have he : e.prog.canc F = true := hl e (by simp [hrl])
-            have hes : ∀ x ∈ es, x.prog.canc F = true := fun x hx => hl x (by simp [hrl, hx])
-            by_cases hx : (F.execChecksCancel && σ.done) = true
-            · have key : stepG F σ { stack := [], armed := false, blocked := none, ops := ops, ticks := ticks, main := true } =
-                  ({ stack := [], armed := false, blocked := none, ops := ops, ticks := ticks, main := true }, [], []) := by
-                simp [stepG, advance, hrl, hx]
-              rw [key]
-              exact ⟨⟨by simp [G.canc], by simp⟩, by simp, by simp⟩
-            · have key : stepG F σ { stack := [], armed := false, blocked := none, ops := ops, ticks := ticks, main := true } =
-                  ({ stack := [⟨if e.root then σ.rootId else newId F.entryId σ.rootId σ.id, e.prog, true⟩], armed := false,
-                     blocked := none, ops := ops, ticks := ticks, main := true }, [], es) := by
-                simp [stepG, advance, hrl, hx]
-              rw [key]
-              exact ⟨⟨by simp [G.canc, he], by simp⟩, by simp, hes⟩
-      | cons fr rest =>
-        obtain ⟨fid, pc, fcur⟩ := fr
-        have hall : ((pc.canc F && fcur) && rest.all (fun fr => fr.pc.canc F && fr.cur)) = true := by simpa [G.canc] using hca
-        simp only [Bool.and_eq_true] at hall
-        by_cases hg : guardOk F fid σ.id = true
-        · cases pc <;> simp only [stepG, advance, hg, if_true] <;>
-            exact ⟨⟨by simp [G.canc, hall.1.1, hall.1.2, hall.2], by simp⟩, by simp, hl⟩
-        · cases pc <;> simp only [stepG, advance, hg] <;>
-            exact ⟨⟨by simp [G.canc, hall.2], by simp⟩, by simp, hl⟩
+      cases pending with
+      | some pd =>
+        obtain ⟨hb, hc⟩ := hpend pd rfl
+        simp only [stepG, advance]
+        refine ⟨⟨(gcanc_iff F _).mpr ⟨by simp [hb, hrc, hc], (fun _ _ h => nomatch h), (fun _ h => nomatch h)⟩, by simp⟩, by simp, hl, hrc⟩
+      | none =>
+        have mk : ∀ (st : List Frame), st.all (fun fr => fr.pc.canc F && fr.cur) = true →
+            PreG F { stack := st, armed := false, blocked := none, ops := ops, ticks := ticks, main := main, pending := none } :=
+          fun st hs => ⟨(gcanc_iff F _).mpr ⟨hs, (fun _ _ h => nomatch h), (fun _ h => nomatch h)⟩, by simp⟩
+        cases stack with
+        | nil =>
+          cases main with
+          | false => simp only [stepG, advance]; exact ⟨mk _ rfl, by simp, hl, hrc⟩
+          | true =>
+            cases hrl : σ.runList with
+            | nil => simp only [stepG, advance, hrl]; exact ⟨mk _ rfl, by simp, by simp, hrc⟩
+            | cons e es =>
+              have he : e.prog.canc F = true := hl e (by simp [hrl])
+              have hes : ∀ x ∈ es, x.prog.canc F = true := fun x hx => hl x (by simp [hrl, hx])
+              by_cases hx : (F.execChecksCancel && σ.done) = true
+              · have key : stepG F σ { stack := [], armed := false, blocked := none, ops := ops, ticks := ticks, main := true, pending := none } =
+                    ⟨{ stack := [], armed := false, blocked := none, ops := ops, ticks := ticks, main := true, pending := none }, [], [], σ.rootCur⟩ := by
+                  simp [stepG, advance, hrl, hx]
+                rw [key]
+                exact ⟨mk _ rfl, by simp, by simp, hrc⟩
+              · have key : stepG F σ { stack := [], armed := false, blocked := none, ops := ops, ticks := ticks, main := true, pending := none } =
+                    ⟨{ stack := [⟨if e.root then σ.rootId else newId F.entryId σ.rootId σ.id σ.rootId, e.prog, true⟩], armed := false,
+                       blocked := none, ops := ops, ticks := ticks, main := true, pending := none }, [], es, true⟩ := by
+                  simp [stepG, advance, hrl, hx, hcn, hrc]
+                rw [key]
+                exact ⟨mk _ (by simp [he]), by simp, hes, rfl⟩
+        | cons fr rest =>
+          obtain ⟨fid, pc, fcur⟩ := fr
+          have hall' := hall
+          simp only [List.all_cons, Bool.and_eq_true] at hall'
+          by_cases hg : guardOk F fid σ.id = true
+          · cases pc <;> simp only [stepG, advance, hg, Bool.false_eq_true, ↓reduceIte] <;>
+              first
+                | exact ⟨mk _ hall'.2, by simp, hl, hrc⟩
+                | exact ⟨⟨(gcanc_iff F _).mpr ⟨hall, (fun _ _ h => nomatch h), (fun _ h => nomatch h)⟩, by simp⟩, by simp, hl, hrc⟩
+          · cases pc <;> simp only [stepG, advance, hg, Bool.false_eq_true, ↓reduceIte] <;>
+              exact ⟨mk _ hall'.2, by simp, hl, hrc⟩
 
-theorem pre_step (F : RunIdFacts) (σ : St) (c : Choice) (h : Pre F σ) : Pre F (stepC F σ c) := by
+/-- once the `…WithContext` call has stopped watching it does not start again -/
+theorem watching_step (F : RunIdFacts) (σ : St) (c : Choice) (h : (stepC F σ c).watching = true) : σ.watching = true := by
   cases c with
   | run i =>
-    show Pre F (stepRun F σ i)
-    unfold stepRun
+    change (stepRun F σ i).watching = true at h
+    unfold stepRun at h
+    split at h
+    · exact h
+    · unfold execReturn at h
+      split at h
+      · simp at h
+      · exact h
+  | comm i =>
+    change (stepComm σ i).watching = true at h
+    unfold stepComm at h
+    split at h
+    · exact h
+    · split at h <;> exact h
+  | stop =>
+    change (stepStop F σ).watching = true at h
+    unfold stepStop at h
+    split at h
+    · simp at h
+    · exact h
+
+theorem pre_step (F : RunIdFacts) (σ : St) (c : Choice) (h : Pre F σ) : Pre F (stepC F σ c) := by
+  intro hw'
+  have hw := watching_step F σ c hw'
+  have hp := h hw
+  cases c with
+  | run i =>
+    show PreS F (stepRun F σ i)
     cases hg : σ.gs[i]? with
-    | none => exact h
+    | none => simpa [stepRun, hg] using hp
     | some g =>
-      have hs := stepG_pre F σ g h.list (h.gs g (List.mem_of_getElem? hg))
-      obtain ⟨m1, _, _, m4⟩ := markReturn_gs g.main (finished (stepG F σ g).1 && (stepG F σ g).2.2.isEmpty)
-        { σ with gs := σ.gs.set i (stepG F σ g).1 ++ (stepG F σ g).2.1, runList := (stepG F σ g).2.2 }
-      refine ⟨?_, by rw [m4]; exact hs.2.2⟩
+      have hs := stepG_pre F σ g hp.list hp.fresh hp.rootCur (hp.gs g (List.mem_of_getElem? hg))
+      unfold stepRun
+      simp only [hg]
+      obtain ⟨m1, _, _, m4, m5, m6⟩ := execReturn_fields F g.main (finished (stepG F σ g).g && (stepG F σ g).list.isEmpty)
+        { σ with gs := σ.gs.set i (stepG F σ g).g ++ (stepG F σ g).spawned, runList := (stepG F σ g).list, rootCur := (stepG F σ g).rootCur }
+      refine ⟨?_, by rw [m4]; exact hs.2.2.1, by rw [m6]; exact hp.fresh, by rw [m5]; exact hs.2.2.2⟩
       rw [m1]
       intro x hx
       rcases mem_set_append hx with hx | hx | hx
-      · exact h.gs x hx
+      · exact hp.gs x hx
       · subst hx; exact hs.1
       · exact hs.2.1 x hx
   | comm i =>
-    show Pre F (stepComm σ i)
+    show PreS F (stepComm σ i)
     unfold stepComm
     split
-    · exact h
+    · exact hp
     · rename_i g hg
       split
-      · exact h
-      · refine ⟨?_, h.list⟩
+      · exact hp
+      · refine ⟨?_, hp.list, hp.fresh, hp.rootCur⟩
         intro x hx
         rcases List.mem_or_eq_of_mem_set hx with hx | hx
-        · exact h.gs x hx
+        · exact hp.gs x hx
         · subst hx
-          have hd := h.gs g (List.mem_of_getElem? hg)
-          refine ⟨?_, by simp⟩
-          have := hd.canc
-          simp only [G.canc, Bool.and_eq_true] at this ⊢
-          exact ⟨this.1, trivial⟩
+          have hd := hp.gs g (List.mem_of_getElem? hg)
+          obtain ⟨a, _, c⟩ := (gcanc_iff F g).mp hd.canc
+          exact ⟨(gcanc_iff F _).mpr ⟨a, (fun _ _ h => nomatch h), c⟩, by simp⟩
   | stop =>
-    show Pre F (stepStop F σ)
-    unfold stepStop
-    split
-    · exact ⟨h.gs, h.list⟩
-    · exact h
+    change (stepStop F σ).watching = true at hw'
+    simp [stepStop, hw] at hw'
 
 theorem pre_runSched (F : RunIdFacts) (cs : List Choice) (σ : St) (h : Pre F σ) : Pre F (runSched F σ cs) := by
   induction cs generalizing σ with
@@ -153,25 +225,44 @@ theorem pre_runSched (F : RunIdFacts) (cs : List Choice) (σ : St) (h : Pre F σ
 
 theorem pre_start (F : RunIdFacts) (id rootId : Nat) (entries : List Entry) (h : ∀ e ∈ entries, e.prog.canc F = true) :
     Pre F (start F id rootId entries) := by
-  refine ⟨?_, h⟩
+  intro _
+  refine ⟨?_, h, rfl, rfl⟩
   intro g hg
   simp only [start, List.mem_cons, List.not_mem_nil, or_false] at hg
   subst hg
   exact ⟨by simp [G.canc], by simp⟩
 
 /-- the cancellation turns a reachable state inside the domain into a dead state -/
-theorem dead_of_stop {F : RunIdFacts} (hF : Sound F) (σ : St) (hi : Inv σ) (hp : Pre F σ) (hw : σ.watching = true)
-    (hl : σ.runList = [] ∨ F.execChecksCancel = true) : Dead F (stepStop F σ) := by
+theorem dead_of_stop {F : RunIdFacts} (hF : Sound F) (σ : St) (hi : Inv σ) (hm : MainOk σ) (hp : Pre F σ)
+    (hw : σ.watching = true) (hdom : ∀ g ∈ σ.gs, g.fvPending F = false) : Dead F (stepStop F σ) := by
+  have hps := hp hw
   simp only [stepStop, hw, if_true, hF.wstops, hF.bumps, hF.closes, Bool.and_self, Bool.or_true]
-  refine ⟨rfl, hl, ?_⟩
+  refine ⟨rfl, ⟨hm.main0, hm.has⟩, ?_, Or.inl (Nat.lt_succ_of_le hi.root)⟩
   intro g hg
-  obtain ⟨c, hc, hall⟩ := hi.frames g hg
-  have hpg := hp.gs g hg
-  refine ⟨?_, hpg.canc, hpg.wf⟩
-  intro fr hfr
-  have := hall fr hfr
-  show fr.id < σ.id + 1
-  omega
+  obtain ⟨hle, hlp⟩ := hi.frames g hg
+  have hpg := hps.gs g hg
+  obtain ⟨hall, hrel, hpend⟩ := (gcanc_iff F g).mp hpg.canc
+  have hfv := hdom g hg
+  simp only [G.fvPending, Bool.or_eq_false_iff] at hfv
+  refine ⟨fun fr hfr => Nat.lt_succ_of_le (hle fr hfr), ?_, hrel, hpg.wf, ?_⟩
+  · intro pd hpd
+    have h1 := hfv.1
+    simp only [hpd, fvSite, bne_eq_false_iff_eq] at h1
+    exact ⟨h1, Nat.lt_succ_of_le (hlp pd hpd)⟩
+  · intro ha fr rest hst
+    have h2 := hfv.2
+    simp only [ha, hst, Bool.true_and] at h2
+    have hfr : (fr.pc.canc F && fr.cur) = true := by
+      have := List.all_eq_true.mp hall fr (by rw [hst]; simp)
+      exact this
+    simp only [Bool.and_eq_true] at hfr
+    refine ⟨hfr.2, hfr.1, ?_, ?_⟩
+    · intro s b p hpc
+      simp only [hpc, fvSite, Bool.and_eq_false_iff, bne_eq_false_iff_eq, Bool.not_eq_false'] at h2
+      exact h2
+    · intro s b p hpc
+      simp only [hpc, fvSite, bne_eq_false_iff_eq] at h2
+      exact h2
 
 /-- once the `…WithContext` call has returned, what it returned does not change -/
 theorem ret_stable (F : RunIdFacts) (cs : List Choice) (σ : St) (h : σ.watching = false) :
@@ -186,7 +277,8 @@ theorem ret_stable (F : RunIdFacts) (cs : List Choice) (σ : St) (h : σ.watchin
         unfold stepRun
         split
         · exact ⟨h, rfl⟩
-        · simp [markReturn, h]
+        · unfold execReturn
+          split <;> simp [h]
       | comm i =>
         show (stepComm σ i).watching = false ∧ (stepComm σ i).ret = σ.ret
         unfold stepComm
@@ -218,10 +310,19 @@ theorem weight_zero_finished (gs : List G) (h : sumWeights gs = 0) : ∀ g ∈ g
         cases hb : g.blocked.isSome with
         | false => rfl
         | true => simp [hb] at hx
-      simp [finished, List.length_eq_zero_iff.mp h1, h2]
-      cases hbb : g.blocked with
-      | none => rfl
-      | some v => simp [hbb] at h3
+      have h4 : g.pending.isSome = false := by
+        cases hb : g.pending.isSome with
+        | false => rfl
+        | true => simp [hb] at hx
+      have h3' : g.blocked = none := by
+        cases hbb : g.blocked with
+        | none => rfl
+        | some v => simp [hbb] at h3
+      have h4' : g.pending = none := by
+        cases hbb : g.pending with
+        | none => rfl
+        | some v => simp [hbb] at h4
+      simp [finished, List.length_eq_zero_iff.mp h1, h2, h3', h4']
     · exact ih (by omega) g hg
 
 theorem opsOf_le_potAt (σ : St) (i : Nat) : opsOf σ i ≤ potAt σ i := by
